@@ -113,6 +113,15 @@ def gen_scenario(rng, shard_no, slot, index):
         clean.append(c)
     spec = {"tmp": tempfile.mkdtemp(prefix=f"v07-{hid}-"), "seed": f"{shard_no}/{index}", "hosts": hosts, "caddress": f"tcp://localhost:{base}", "plan": plan,
             "datasets": datasets, "commands": clean, "settle_s": 8.0, "source_purge_after_accept": True, "port_block": block}
+    # slow-store class: the target's shm server answers the allocation of the first incoming payload 6.5 real seconds late (busy, not
+    # lost) -- nothing may be given up, stored twice or left half-written because an answer was slow
+    firsts = [c for c in clean if c["op"] == "transmit" and not c.get("after_target_purge") and not any(p["op"] == "purge" and p["ds"] == c["ds"] for p in clean)]
+    if firsts and (index % 5 == 3 or rng.random() < 0.05):
+        c0 = firsts[0]
+        if c0["dst"] not in next(d for d in datasets if d["task"] == c0["ds"])["preload"]:
+            pre = sum(1 for d in datasets if c0["dst"] in d["preload"])
+            spec["slow_shm"] = {"host": ids.index(c0["dst"]), "nth_allocate": pre + 1, "delay": 6.5}
+            kinds.append("slow_shm")
     return spec, plan_class, kinds
 
 
